@@ -23,7 +23,7 @@ def FIELD_DECLS():   # constructors of the built-in types and what they parse
             TL.unit_tokenize_without_space(), TL.unit_generated_tokens(), TL.unit_token_text(), R.unit_code_for_string_token()] + RI.units_range_init(shapes=[(1, 1, 1)]) + RD.units_decimal_range_init()[:1]
 
 def CID():           # reading an interface definition
-    return [IF.unit_cid_read(), IF.unit_cid_init(), IF.unit_add_data_format_row(), IF.unit_add_field_format_row(), IF.unit_add_field_format(), IF.unit_add_check_row(), IF.unit_create_class_and_check_row(),
+    return [IF.unit_cid_read(), IF.unit_cid_init(), IF.unit_add_data_format_row(), IF.unit_add_field_format_row(), IF.unit_add_field_format(), IF.unit_add_check_row(), IF.unit_add_check(), IF.unit_create_class_and_check_row(),
             IF.unit_validated_field_name(), TL.unit_validated_python_name(), F.unit_field_name_index(), CK.unit_is_unique_init(), CK.unit_distinct_count_init(),
             D.unit_dataformat_init(), D.unit_set_property(), D.unit_validate(), D.unit_validated_character(), STO.unit_auto_rows(), ST.unit_no_hidden_state()]
 
